@@ -5,7 +5,7 @@ from concurrent.futures import ThreadPoolExecutor
 ROOT = os.path.dirname(os.path.dirname(os.path.abspath(__file__)))
 COQ = os.path.join(ROOT, 'coq')
 QFLAGS = ['-Q', 'theories', 'QSC', '-Q', 'gen', 'QSCGen', '-Q', 'gprops', 'QSCGProps', '-Q', 'props', 'QSCProps']
-THEORIES = ['Expr', 'Equiv', 'Dim', 'Sign', 'Shift', 'DiffMat', 'Newton', 'ObjModel', 'Effects']
+THEORIES = ['Expr', 'Equiv', 'Dim', 'Sign', 'Shift', 'Shallow', 'DiffMat', 'Quadrant', 'Newton', 'ObjModel', 'Effects']
 FORBIDDEN = re.compile(r'\b(Admitted|admit|Axiom|Axioms|Parameter|Parameters|Conjecture|Hypothesis\s|Variable\s)|Unset\s+Guard|bypass_check|type-in-type|impredicative-set|Admit\s+Obligations')
 ALLOWED_AXIOMS = {
     'ClassicalDedekindReals.sig_not_dec', 'ClassicalDedekindReals.sig_forall_dec',
@@ -124,8 +124,8 @@ def closed_count(out):
 
 def grep_gate():
     """reject forbidden vernacular anywhere in the hand-written or generated development.
-    Section-local Variable/Hypothesis are allowed only inside theories/ (they are closed
-    when the section ends and show up as explicit premises)."""
+    Variable / Hypothesis / Context are accepted only INSIDE a Section (they are discharged when
+    the section closes and appear as explicit premises); Print Assumptions is the final arbiter."""
     bad = []
     for d in ('theories', 'props', 'gen', 'gprops'):
         p = os.path.join(COQ, d)
@@ -136,9 +136,16 @@ def grep_gate():
                 continue
             src = open(os.path.join(p, f)).read()
             src = re.sub(r'\(\*.*?\*\)', '', src, flags=re.S)
-            for m in FORBIDDEN.finditer(src):
-                w = m.group(0).strip()
-                if d == 'theories' and w in ('Variable', 'Hypothesis'):
-                    continue
-                bad.append('%s/%s: %s' % (d, f, w))
+            depth = 0
+            for sent in re.split(r'\.\s', src):
+                st = sent.strip()
+                if re.match(r'^(Section|Module)\s+\w+', st) and ':=' not in st:
+                    depth += 1
+                elif re.match(r'^End\s+\w+', st):
+                    depth = max(0, depth - 1)
+                for m in FORBIDDEN.finditer(sent):
+                    w = m.group(0).strip()
+                    if w in ('Variable', 'Hypothesis') and depth > 0:
+                        continue
+                    bad.append('%s/%s: %s' % (d, f, w))
     return bad
